@@ -5334,7 +5334,7 @@ def h_option_sort(pattern, parents_c):
         return None
     nc.m.eng.stubs['vf$slot%d' % nc.slot('9sort_nextElRKNS_7IndexOfIlEES4_lbb')] = s_sort_next
     nc.m.eng.stubs['vf$slot%d' % nc.slot('12branch_depthEv')] = lambda eng, fr, ins, st, name, argv: [z3.BitVecVal(0, 8), BV(1)]
-    this, idx = build_option64(nc, pattern, option=option)
+    this, idx = build_option64(nc, pattern)
     G = max(parents_c) + 1 if parents_c else 1
     first_of = {g: sum(1 for p in parents_c if p < g) for g in range(G)}        # groups are contiguous and in order: group g starts after all entries of the earlier groups
 
@@ -5528,7 +5528,7 @@ def h_record_key_at(names, nfields, position=None):
         if r.returncode != 0:
             return True, '%s %s asked for key(%d): native %s (expected %s)' % ('record array' if named else 'tuple array', expect, v, r.stdout.strip() or r.stderr[-200:], 'std::invalid_argument' if want == '!' else want), payload
         return False, 'native agrees (%s)' % r.stdout.strip(), payload
-    tw = [('a position inside', inside), ('a position outside', z3.Not(inside))] if position is None else []
+    tw = ([('a position inside', inside)] if expect else []) + [('a position outside', z3.Not(inside))] if position is None else []
     return mdischarge(nc.m, 'RecordArray %s key(%s)' % (list(names) if named else 'tuple of %d' % nfields, 'position' if position is None else position), obls, tw, replay=replay,
                       prefer=[pos >= -3, pos <= 5], extra=dict(bounds='field names concrete (case split), the position any 64-bit value'))
 
@@ -5960,7 +5960,7 @@ def h_option_sort_above(pattern, parents_c, arg, lens=None):
     nc.m.eng.stubs['_ZNK7awkward17ListOffsetArrayOfIlE9mergeableE*'] = lambda eng, fr, ins, st, name, argv: z3.BitVecVal(0, 1)
     # the content is a list level above the leaves: branch_depth() = (false, 2); negaxis = 1 sorts the leaves
     nc.m.eng.stubs['vf$slot%d' % nc.slot('12branch_depthEv')] = lambda eng, fr, ins, st, name, argv: [z3.BitVecVal(0, 8), BV(2)]
-    this, idx = build_option64(nc, pattern, option=option)
+    this, idx = build_option64(nc, pattern)
     G = max(parents_c) + 1 if parents_c else 1
     first_of = {g: sum(1 for p in parents_c if p < g) for g in range(G)}        # groups are contiguous and in order: group g starts after all entries of the earlier groups
 
